@@ -61,7 +61,8 @@ func (dt *DeferredType) Resolve(c px.Context) px.Type {
 				ih, _ = dt.params[0].(px.OrderedMap)
 			}
 			if ih != nil {
-				dt.resolved = newTypeSetType2(ih, c.Loader())
+				// a type set must be resolved before it is used: unresolved it has no versions to print or to compare
+				dt.resolved = newTypeSetType2(ih, c.Loader()).(px.ResolvableType).Resolve(c)
 			} else {
 				ar := resolveValue(c, WrapValues(dt.params)).(*Array)
 				dt.resolved = ResolveWithParams(c, dt.tn, ar.AppendTo(make([]px.Value, 0, ar.Len())))
